@@ -116,6 +116,33 @@ class Session:
         self.obligations.append(ob)
         return ob
 
+    def prove_poly(self, name, lhs, rhs, zero_hyps, hyps=(), kind="ensures", **info):
+        """lhs == rhs by an algebraic certificate: lhs - rhs - sum(m_k * H_k) normalises to 0 as a
+        polynomial (z3 simplifier, sum-of-monomials form), where every H_k == 0 is a hypothesis.
+        Sound: the normal form being 0 is an identity; the H_k are assumed zero.  If the
+        certificate does not reduce, the ordinary SMT query decides (so a false goal still gets a
+        counter-model)."""
+        resid = lhs - rhs
+        for m, H in zero_hyps:
+            resid = resid - m * H
+        nf = z3.simplify(resid, som=True, mul_to_power=False, expand_power=True)
+        ok = z3.is_rational_value(nf) and nf.numerator_as_long() == 0
+        backend = "z3-simplify(som) certificate"
+        if not ok:
+            from .polycert import is_zero_polynomial
+            try:
+                ok = is_zero_polynomial(resid)
+                backend = "sympy-expand certificate"
+            except Exception:
+                ok = False
+        if ok:
+            ob = Obligation(name=name, kind=kind, hyps=[], goal=True, info=dict(info, certificate="polynomial identity"))
+            ob.status, ob.backend = "discharged", backend
+            self.obligations.append(ob)
+            return ob
+        extra = [H == 0 for _, H in zero_hyps]
+        return self.prove(name, lhs == rhs, hyps=list(hyps) + extra, kind=kind, **info)
+
     def register_function(self, I, qualname, npaths):
         try:
             fv = I.get_function(qualname)
